@@ -49,8 +49,28 @@ PROPERTIES = {
 }
 
 
+PROPERTIES["C14"] = {
+    "machine": "lifecycle_sim",
+    "engine": "Sim-L",
+    "level": "exploration",
+    "level_text": "Differential seeded search over lifetime histories: a run is (prefix, suffix); the prefix creates, relates, ties into cycles, drops, garbage-collects, sweeps and clears instances in orders that mirror or permute the suffix's so that rustworkx node indices and object ids are recycled; the suffix creates a few ontology instances and asserts relations (single-valued assignment, append, add, direct relation objects). Variant A runs the suffix alone on a fresh graph in a forked grandchild, variant B runs prefix then suffix; the recorded relations among suffix instances and every managed field of every suffix instance must be identical, no relation may attach to a foreign or dead instance, and no assertion between live instances may raise. Exploration because the failing condition is a coincidence of lifetimes (which wrapper died when, which index was reused) that only an owned GC schedule produces.",
+    "design_ref": "DESIGN.md section 5, C14",
+    "level_note": "Trusted: the harness ontology (sim/worlds/oworld.py), CPython reference counting and gc.collect() as the only reclamation events (automatic cyclic GC disabled), rustworkx index recycling as it is. Inferred list fields are compared as multisets (their order is not part of this property). Probes read SymbolGraph private indexes but never decide.",
+    "technique": "deterministic simulation: scheduled reference drops / gc / sweep / clear as faults, differential oracle (suffix alone vs after prefix) in forked processes, ddmin-minimised replay",
+    "tiers": {
+        "quick": {"runs": 8000, "wall_s": 150, "triage_s": 60},
+        "thorough": {"runs": 500000, "wall_s": 3000, "triage_s": 300},
+    },
+    "cfg": {},
+    "rule": "one run = (prefix op list, suffix op list) over the Org/Human/Boss ontology, prefix shape mirror/permuted/random. Non-trivial: the suffix records at least one relation and a suffix instance received a graph node index or an object id that a prefix instance had used. Distinct: hash of the two op lists without serial numbers.",
+    "components": ["real: SymbolGraph, WrappedInstance, PropertyDescriptor, PropertyDescriptorRelation inference, monitored containers, class diagram, rustworkx PyDiGraph, CPython refcounting and gc", "stub: ontology classes Org/Human/Boss and their descriptors (sim/worlds/oworld.py)"],
+    "assumptions": ["the suffix only relates suffix instances; survivors of the prefix are never related to them", "sampling, not enumeration", "bounds: <=5 suffix instances, <=6 suffix assertions, <=3 prefix rounds or <=25 random prefix ops"],
+}
+
+# <<NEW-PROPERTIES>>
 
 ENGINES = {
+    "Sim-L": "lifecycle simulator: cyclic GC disabled, reference drops / gc.collect / sweep / graph clear are scheduled ops on a harness-owned handle table, weak-reference census as ground truth; fork-per-run",
     "Sim-E": "evaluation simulator: the generators returned by evaluate() are the tasks; a seeded op list decides every next(), close(), reference drop and gc; fork-per-run from a pristine template process",
 }
 
@@ -76,5 +96,5 @@ NOT_APPLICABLE = {
     "C11": "pattern matching vs explicit query: pure in (pattern, data); " + _PURE,
     "C12": "predicates/symbolic functions, concrete vs symbolic call: pure in (signature, call shape, binding); " + _PURE,
     "C18": "JSON round trip: pure in the value; " + _PURE,
-    "C13": _WIP, "C14": _WIP, "C15": _WIP, "C16": _WIP, "C17": _WIP, "C19": _WIP, "C20": _WIP,
+    "C13": _WIP, "C15": _WIP, "C16": _WIP, "C17": _WIP, "C19": _WIP, "C20": _WIP,
 }
